@@ -71,8 +71,10 @@ def run(ctx):
                     good = True
         nontriv += 1 if has_fail_after_good else 0
     sc = [{"id": i + 1, "replay": 0, "steps": b} for i, b in enumerate(behs)]
-    tf = rl_common.run_harness(ctx, sc, "c10", timeout=3000)
-    rl_common.judge(ctx, tf, "load sequences with fault injection", "C10", TEXT)
+    chunk = 300
+    for i in range(0, len(sc), chunk):
+        tf = rl_common.run_harness(ctx, sc[i:i + chunk], "c10-%d" % (i // chunk), timeout=3000)
+        rl_common.judge(ctx, tf, "load sequences with fault injection", "C10", TEXT)
     ctx.cov["evaluations"] += len(behs)
     ctx.cov["distinct_nontrivial"] += nontriv
     ctx.cov["distinct_fault_points"] = len(faults)
